@@ -167,21 +167,13 @@ inline void comps(const Q& q, X* out) {
   else
     raw_get(q.Value(), out);
 }
-template <class Q>
+template <class Q, class = void>
 struct NumOf {
   using type = typename Shape<value_t<Q>>::T;
 };
-template <>
-struct NumOf<float> {
-  using type = float;
-};
-template <>
-struct NumOf<double> {
-  using type = double;
-};
-template <>
-struct NumOf<long double> {
-  using type = long double;
+template <class Q>
+struct NumOf<Q, std::enable_if_t<Shape<Q>::n != 0>> {
+  using type = typename Shape<Q>::T;
 };
 template <class Q>
 using num_t = typename NumOf<Q>::type;
